@@ -536,8 +536,9 @@ class Optimizer(Logger, Citable):
             return np.nan
 
         res = (mydata.ravel() - final_model.ravel()) / datastd.ravel()
+        no_valid_bins = np.all(np.isnan(res))
         res = np.nansum(res*res)
-        if res == 0:
+        if no_valid_bins:
             res = np.nan
 
         return res
